@@ -25,6 +25,8 @@ func propC06(c *Ctx) {
 	// the input of a build is the file object the caller hands in: a build that rewrites its bytes in place makes
 	// the next build of the same object start from other input
 	c.ruleNormalisers()
+	// ... and a build must not change what the caller will hand to the next one: an Option value applied to many cores
+	c.ruleOptionAliasingAs("C06-OPTION-ALIASING")
 }
 
 // mapRangeExceptions: range-over-map loops that the classifier cannot discharge although reading shows
